@@ -1,4 +1,5 @@
 import FeedVerif.Model.San
+import FeedVerif.Gen.Urls
 import FeedVerif.Model.Proto
 /-! Driver glue for M-san: one sgmllib callback per line; the real results of `sanitize_style` and of the
 href branch for every attribute value of a start tag come along as oracle values. -/
@@ -56,5 +57,42 @@ def driverStep (d : DSt) (ws : List String) : DSt × String :=
   | _ => (d, "bad-op")
 where
   ops0' : Ops := { safeHref := fun v => v, style := fun _ _ => [] }
+
+end FeedVerif.San
+
+namespace FeedVerif.San
+open FeedVerif.Proto
+
+def relTableShipped : List (Str × Str) := Gen.Urls.relativeUris.map fun p => (p.1.toList, p.2.toList)
+
+/-- resolver attr field: `k|v|resolved` -/
+def decRAttr (f : String) : Option (Attr × Str) :=
+  match f.splitOn "|" with
+  | [k, v, r] => match decChars k, decChars v, decChars r with
+    | some k, some v, some r => some ((k, v), r)
+    | _, _, _ => none
+  | _ => none
+
+/-- `res stag <tag> <k|v|resolved>…` · `res etag|text|charref|entref|comment|pi|decl <x>` → serialized output of the callback -/
+def resDriverStep (ws : List String) : String :=
+  match ws with
+  | "stag" :: tag :: attrs =>
+    match decChars tag, attrs.mapM decRAttr with
+    | some tag, some as =>
+      let resolve (v : Str) : Str := match as.find? (·.1.2 == v) with | some r => r.2 | none => s "<oracle-miss>"
+      let x := resolverStep shipped relTableShipped resolve (.stag tag (as.map (·.1)))
+      if x.isEmpty then "-" else "P " ++ encChars x
+    | _, _ => "bad-op"
+  | [k, x] =>
+    match decChars x with
+    | some x =>
+      let tok : Option Tok := if k == "text" then some (.text x) else if k == "charref" then some (.charref x)
+        else if k == "entref" then some (.entref x) else if k == "comment" then some (.comment x)
+        else if k == "pi" then some (.pi x) else if k == "decl" then some (.decl x) else if k == "etag" then some (.etag x) else none
+      (match tok with
+        | some tok => let y := resolverStep shipped relTableShipped (fun v => v) tok; if y.isEmpty then "-" else "P " ++ encChars y
+        | none => "bad-op")
+    | none => "bad-op"
+  | _ => "bad-op"
 
 end FeedVerif.San
